@@ -28,7 +28,7 @@ ASSUMPTIONS = [
 ]
 COMPONENTS = {"real": ["pyxel.inputs.load_image / load_table", "pyxel.util.fit_into_array / load_cropped_and_aligned_image", "load_image and load_charge models inside run_mode", "real scratch filesystem (fsspec local)"], "stub": []}
 BUDGET = {"quick": {"n": 800, "wall": 100, "determinism": 4}, "thorough": {"n": 240000, "wall": 1500, "determinism": 12}}
-REQUIRED_REACH = ["relative_to_working_directory", "second_working_directory", "op:write", "op:load_image", "op:load_table", "op:run", "rewrite_then_run", "rewrite_same_mtime_size", "fmt:npy", "fmt:fits", "fmt:txt", "delim:tab", "delim:space", "delim:comma", "delim:bar", "delim:semicolon", "place:offset", "place:align", "no_overlap_rejected", "input_larger", "input_smaller", "model:load_image", "model:load_charge"]
+REQUIRED_REACH = ["header_loaded", "relative_to_working_directory", "second_working_directory", "op:write", "op:load_image", "op:load_table", "op:run", "rewrite_then_run", "rewrite_same_mtime_size", "fmt:npy", "fmt:fits", "fmt:txt", "delim:tab", "delim:space", "delim:comma", "delim:bar", "delim:semicolon", "place:offset", "place:align", "no_overlap_rejected", "input_larger", "input_smaller", "model:load_image", "model:load_charge"]
 
 DELIMS = {"tab": "\t", "space": " ", "comma": ",", "bar": "|", "semicolon": ";"}
 ALIGNS = ["center", "top_left", "top_right", "bottom_left", "bottom_right"]
@@ -76,9 +76,9 @@ def generate(rng, tier):
                     pos = [-rng.randint(0, w["rows"] + 1), -rng.randint(0, w["cols"] + 1)]
                 else:
                     pos = [det_rows + rng.randint(0, 2), rng.randint(0, det_cols - 1)] if rng.random() < 0.5 else [rng.randint(0, det_rows - 1), det_cols + rng.randint(0, 2)]
-                ops.append({"op": "run", "path": pid, "model": rng.choice(["load_image", "load_charge"]), "position": pos, "align": None, "steps": rng.randint(1, 2)})
+                ops.append({"op": "run", "path": pid, "model": rng.choice(["load_image", "load_charge"]), "position": pos, "align": None, "steps": rng.randint(1, 2), "header": rng.random() < 0.6})
             else:
-                ops.append({"op": "run", "path": pid, "model": rng.choice(["load_image", "load_charge"]), "position": [0, 0], "align": rng.choice(ALIGNS), "steps": 1})
+                ops.append({"op": "run", "path": pid, "model": rng.choice(["load_image", "load_charge"]), "position": [0, 0], "align": rng.choice(ALIGNS), "steps": 1, "header": rng.random() < 0.6})
     scn = {"det_type": rng.choice(["CCD", "CMOS"]), "rows": det_rows, "cols": det_cols, "ops": ops}
     # input paths relative to the configured working directory (optionally a second directory holding
     # another file under the same relative name)
@@ -118,7 +118,9 @@ def write_file(path, w, arr):
     elif w["fmt"] == "fits":
         from astropy.io import fits
 
-        fits.writeto(path, arr, overwrite=True)
+        hdr = fits.Header()
+        hdr["PYXVER"] = int(w["salt"])  # a keyword that identifies this version of the file
+        fits.writeto(path, arr, header=hdr, overwrite=True)
     else:
         np.savetxt(path, arr, delimiter=DELIMS[w["delim"]], fmt="%.17g")
 
@@ -252,8 +254,9 @@ def execute(scn):
                     stats["input_smaller"] = 1
                 times = [1.0, 3.0][: op["steps"]]
                 det = world.build_detector(spec)
+                with_header = model == "load_image" and w["fmt"] == "fits" and bool(op.get("header"))
                 if model == "load_image":
-                    mf = ModelFunction(func="pyxel.models.photon_collection.load_image", name="load_image", arguments={"image_file": ref_path, "position": list(op["position"]), "align": op["align"]})
+                    mf = ModelFunction(func="pyxel.models.photon_collection.load_image", name="load_image", arguments={"image_file": ref_path, "position": list(op["position"]), "align": op["align"], **({"include_header": True} if with_header else {})})
                     pipe = DetectionPipeline(photon_collection=[mf])
                     bucket = "photon"
                 else:
@@ -289,6 +292,16 @@ def execute(scn):
                                 sig = "C20.stale-content@rewrite-with-identical-mtime-and-size" if meta[pid].get("stat_kept") else "C20.stale-content@rewritten-file"
                             bad("C20.placement" if which == "placement" else "C20.current-content", sig, {"op": k, "step": i, "position": op["position"], "align": op["align"], "input_shape": list(want.shape), "detector": [rows, cols], "got": got[i].tolist(), "want": (exp * dtm).tolist()})
                             break
+                    if with_header and not viol:
+                        stats["header_loaded"] = 1
+                        try:
+                            ver = det.header["PYXVER"]
+                        except Exception as exc:  # noqa: BLE001
+                            ver = f"<{type(exc).__name__}>"
+                        if ver != int(w["salt"]):
+                            if stale_risk.get(pid):
+                                stats["rewrite_then_run"] = 1
+                            bad("C20.current-content", "C20.stale-header@" + ("rewritten-file" if stale_risk.get(pid) else "first-read"), {"op": k, "header_keyword": ver, "file_holds": int(w["salt"])})
                 read_since_write[pid] = True
                 run_before[pid] = True
             h.update(repr((k, op["op"], len(viol))).encode())
